@@ -20,41 +20,70 @@ func byteDecision(c *Ctx, fn *ssa.Function) []byteOutcome {
 	}
 	bv := ssa.Value(fn.Params[0])
 	var out []byteOutcome
-	var walk func(b *ssa.BasicBlock, bs *ByteSet, conds []string, depth int)
-	walk = func(b *ssa.BasicBlock, bs *ByteSet, conds []string, depth int) {
+	var walk func(b, prev *ssa.BasicBlock, bs *ByteSet, conds []string, depth int)
+	is := func(o ssa.Value) bool { return o == bv }
+	emit := func(v ssa.Value, at, prev *ssa.BasicBlock, bs *ByteSet, conds []string) {
+		// resolve a returned phi by the predecessor we came from
+		for i := 0; i < 4; i++ {
+			ph, ok := v.(*ssa.Phi)
+			if !ok || prev == nil {
+				break
+			}
+			for j, p := range ph.Block().Preds {
+				if p == prev {
+					v = ph.Edges[j]
+				}
+			}
+			break
+		}
+		if k, ok := v.(*ssa.Const); ok {
+			out = append(out, byteOutcome{bs, conds, k.Value.String()})
+			return
+		}
+		if bo, ok := v.(*ssa.BinOp); ok && (bo.X == bv || bo.Y == bv) {
+			ts := refineByCond(bs, bo, true, is)
+			fs := refineByCond(bs, bo, false, is)
+			if ts.count()+fs.count() == bs.count() {
+				if !ts.empty() {
+					out = append(out, byteOutcome{ts, conds, "true"})
+				}
+				if !fs.empty() {
+					out = append(out, byteOutcome{fs, conds, "false"})
+				}
+				return
+			}
+		}
+		out = append(out, byteOutcome{bs, conds, "?"})
+	}
+	walk = func(b, prev *ssa.BasicBlock, bs *ByteSet, conds []string, depth int) {
 		if depth > 200 {
 			return
 		}
 		switch t := b.Instrs[len(b.Instrs)-1].(type) {
 		case *ssa.Return:
-			res := "?"
-			if k, ok := t.Results[0].(*ssa.Const); ok {
-				res = k.Value.String()
-			}
-			out = append(out, byteOutcome{bs, conds, res})
+			emit(t.Results[0], b, prev, bs, conds)
 		case *ssa.If:
-			is := func(o ssa.Value) bool { return o == bv }
 			if bo, ok := t.Cond.(*ssa.BinOp); ok && (bo.X == bv || bo.Y == bv) {
 				ts := refineByCond(bs, bo, true, is)
 				fs := refineByCond(bs, bo, false, is)
 				if !ts.empty() {
-					walk(b.Succs[0], ts, conds, depth+1)
+					walk(b.Succs[0], b, ts, conds, depth+1)
 				}
 				if !fs.empty() {
-					walk(b.Succs[1], fs, conds, depth+1)
+					walk(b.Succs[1], b, fs, conds, depth+1)
 				}
 				return
 			}
 			l := condLabel(c, t.Cond)
-			walk(b.Succs[0], bs, append(append([]string{}, conds...), l), depth+1)
-			walk(b.Succs[1], bs, append(append([]string{}, conds...), "!"+l), depth+1)
+			walk(b.Succs[0], b, bs, append(append([]string{}, conds...), l), depth+1)
+			walk(b.Succs[1], b, bs, append(append([]string{}, conds...), "!"+l), depth+1)
 		default:
 			for _, s := range b.Succs {
-				walk(s, bs, conds, depth+1)
+				walk(s, b, bs, conds, depth+1)
 			}
 		}
 	}
-	walk(fn.Blocks[0], fullSet(), nil, 0)
+	walk(fn.Blocks[0], nil, fullSet(), nil, 0)
 	return out
 }
 
